@@ -434,18 +434,6 @@ def exec (d : Durable) (op : Op) (inj : Inj) : Durable × Out :=
 /-- an empty data directory -/
 def empty : Durable := { bf := { ents := [] }, ff := { ents := [] }, db := {} }
 
-/-- What is on disk when the very first start is killed right before the n-th
-index transaction of the two constructors (1: bucket creation; 2: the block
-store's genesis entry — its file write is done; 3: the filter store's bucket
-check; 4: the filter store's genesis tip — its file write is done; ≥ 5: never). -/
-def initCrash : Nat → Durable
-  | 0 => empty
-  | 1 => empty
-  | 2 => { empty with bf := { ents := [0] } }
-  | 3 => { bf := { ents := [0] }, ff := { ents := [] }, db := { idx := [(0, 0)], btip := some 0 } }
-  | 4 => { bf := { ents := [0] }, ff := { ents := [0] }, db := { idx := [(0, 0)], btip := some 0 } }
-  | _ => { bf := { ents := [0] }, ff := { ents := [0] }, db := { idx := [(0, 0)], btip := some 0, ftip := some 0 } }
-
 /-- the state right after first-time initialisation -/
 def init : Durable :=
   { bf := { ents := [0] }, ff := { ents := [0] },
